@@ -28,7 +28,7 @@ func reg(names string, h intrinsic) {
 
 // ErrObj models error values produced by status / errors / fmt.
 type ErrObj struct {
-	Kind string // "status", "errors", "fmt", "runtime", "ctx"
+	Kind string    // "status", "errors", "fmt", "runtime", "ctx"
 	Code *smt.Term // BV32 (status code); nil when not a status error
 	Msg  string
 	Wrap Value // wrapped error (IfaceV)
